@@ -103,6 +103,9 @@ func outcome(pj *simdjson.ParsedJson, err error, big bool) c15Expect {
 func newC15(w *W) *c15ctx {
 	c := &c15ctx{docs: c15Docs(), blobs: map[int][]byte{}, expect: map[string]c15Expect{}}
 	for di, d := range c.docs {
+		if d.text == nil {
+			continue
+		}
 		for _, cp := range []bool{true, false} {
 			for kind := 0; kind < 2; kind++ {
 				pj, err, p := doParse(Cfg{hasAVX512, cp}, d.text, nil, kind == 1)
@@ -117,6 +120,15 @@ func newC15(w *W) *c15ctx {
 				}
 			}
 		}
+	}
+	// a blob whose tape has NOP gaps from in-place edits (index -1)
+	{
+		pj, docs := mustParse(w, `[1,"a",[2,3],{"x":1,"y":[4,5],"z":2},true,null]`, false, Cfg{hasAVX512, true})
+		applyOps(w, pj, docs, []editOp{{kind: opArrDelete, p: vpath{0}, route: 0, subset: 0b100001}, {kind: opObjDelete, p: vpath{0, 2}, route: 0, subset: 0b110, form: 0}, {kind: opSetNull, p: vpath{0, 1}, route: 1}})
+		s := simdjson.NewSerializer()
+		b, _ := serialize(s, pj)
+		c.docs = append(c.docs, c15Doc{"edited-with-gaps", nil})
+		c.blobs[len(c.docs)-1] = append([]byte(nil), b...)
 	}
 	for di, b := range c.blobs {
 		s := simdjson.NewSerializer()
@@ -237,6 +249,9 @@ func (c *c15ctx) run(hist []c15Op) (what, fp string) {
 func c15Alphabet(c *c15ctx) []c15Op {
 	var ops []c15Op
 	for di, d := range c.docs {
+		if d.text == nil {
+			continue
+		}
 		for _, cp := range []bool{true, false} {
 			if !strings.HasPrefix(d.name, "nd-") {
 				ops = append(ops, c15Op{Kind: 0, Doc: di, Copy: cp})
@@ -253,7 +268,7 @@ func c15Alphabet(c *c15ctx) []c15Op {
 		ops = append(ops, c15Op{Kind: 2, Doc: e})
 	}
 	for di := range c.blobs {
-		if di == 0 || di == 4 || di == 8 {
+		if di == 0 || di == 4 || di == 8 || c.docs[di].text == nil {
 			ops = append(ops, c15Op{Kind: 3, Doc: di})
 		}
 	}
@@ -313,6 +328,7 @@ func c15Body(w *W) {
 		}
 	}
 	rec(0)
+	c15SerializerReuse(w)
 	w.Sample("history sample: Parse(async-stage2-error-late, copy=true); Parse(small-ok, copy=false); ParseND(nd-ok, copy=true)")
 }
 
@@ -393,6 +409,53 @@ func c15Post(m *Result, tier string) {
 			if rb, err := os.ReadFile(path); err == nil && json.Unmarshal(rb, &v) == nil {
 				_ = i
 				m.Violations = append(m.Violations, v) // keeps property C15S so that replay goes to the instrumented binary
+			}
+		}
+	}
+}
+
+// c15SerializerReuse: one Serializer across calls and mode changes, with and without a
+// failing (panicking) Serialize in the middle; every blob must denote its tape for a fresh
+// reader and every Deserialize on the reused Serializer must give the fresh result.
+func c15SerializerReuse(w *W) {
+	ts := c11Tapes(w)
+	var small []int
+	corrupt := -1
+	for i, t := range ts {
+		if t.corrupt {
+			corrupt = i
+		} else if !t.big && len(small) < 5 {
+			small = append(small, i)
+		}
+	}
+	w.Note("Serializer reuse: Mode(m1); Serialize(a); [Serialize(tape with unknown tag: panics)]; Mode(m2); Serialize(b); Deserialize(last blob, reused destination) for 5 small tapes a, b and all mode pairs")
+	for m1 := 0; m1 < 4; m1++ {
+		for m2 := 0; m2 < 4; m2++ {
+			for _, a := range small {
+				for _, b := range small {
+					for withFail := 0; withFail < 2; withFail++ {
+						w.res.States++
+						if !w.Mine() || w.Expired() {
+							continue
+						}
+						h := []serOp{{Kind: 1, A: m1}, {Kind: 0, A: a}}
+						if withFail == 1 && corrupt >= 0 {
+							h = append(h, serOp{Kind: 0, A: corrupt})
+						}
+						h = append(h, serOp{Kind: 1, A: m2}, serOp{Kind: 0, A: b}, serOp{Kind: 2, A: -1, Dst: 1})
+						w.res.Transitions += int64(len(h))
+						w.res.Evaluations++
+						w.res.Validated++
+						if what, fp := runSerHistory(ts, nil, h, nil); what != "" {
+							var parts []string
+							for _, o := range h {
+								parts = append(parts, o.str(ts, nil))
+							}
+							enc, _ := json.Marshal(h)
+							w.Violate(Violation{Harness: "C15-serializer-reuse", Fingerprint: "C15/serializer/" + fp, What: what, Case: enc, CaseText: strings.Join(parts, "; "), Config: "-"})
+						}
+					}
+				}
 			}
 		}
 	}
